@@ -14,6 +14,7 @@ package main
 
 import (
 	"go/types"
+	"strings"
 
 	"golang.org/x/tools/go/ssa"
 )
@@ -27,6 +28,9 @@ func (e *Env) declBytesFuncs() {
 	e.sess.Cmd("(declare-fun |abytes!| (Int) Int)")
 	e.sess.Cmd("(declare-fun |bcat!| (Int Int Int) Int)")
 	e.sess.Cmd("(declare-fun |bstr!| (Int) Int)")
+	// afrom(c, n, x): the [N]byte value x after copy(x[:], s) with content(s) = c, len(s) = n
+	e.sess.Cmd("(declare-fun |afrom!| (Int Int Int) Int)")
+	e.sess.Cmd("(assert (forall ((a Int) (x Int)) (! (= (|afrom!| (|abytes!| a) 32 x) a) :pattern ((|afrom!| (|abytes!| a) 32 x)))))")
 }
 
 // contentTerm is the content id of a byte slice in a state.
@@ -39,8 +43,19 @@ func (e *Env) contentTerm(st *State, b *Slice) string {
 		e.sess.Cmd("(declare-fun " + f + " ((Array Int " + leaves[0].Sort + ") Int Int) Int)")
 		// content ids are non-negative and fit the Go int range spec variables of type int use
 		e.sess.Cmd("(assert (forall ((a (Array Int " + leaves[0].Sort + ")) (o Int) (l Int)) (! (and (<= 0 (" + f + " a o l)) (< (" + f + " a o l) 4611686018427387904)) :pattern ((" + f + " a o l)))))")
+		// the empty byte string has one id, whatever array and offset it is taken from
+		e.sess.Cmd("(assert (forall ((a (Array Int " + leaves[0].Sort + ")) (o Int)) (! (= (" + f + " a o 0) 0) :pattern ((" + f + " a o 0)))))")
 	}
 	arr := e.heapGet(st, names[0], sorts[0])
+	return sx(f, mkSelect(arr, b.Arr), b.Off, b.Len)
+}
+
+// contentTermAt is contentTerm for an explicit version of the element array.
+func (e *Env) contentTermAt(st *State, b *Slice, arr string) string {
+	et := b.Typ.Underlying().(*types.Slice).Elem()
+	_, _, leaves := e.elemArrays(et)
+	f := q("content!" + sanitize(leaves[0].Sort))
+	e.contentTerm(st, b) // declares f
 	return sx(f, mkSelect(arr, b.Arr), b.Off, b.Len)
 }
 
@@ -93,4 +108,62 @@ func extSha256Sum(e *Env, fr *Frame, fn *ssa.Function, args []Value, rt types.Ty
 		e.assume(mkEq(fl[0], sx("|sha256!|", e.contentTerm(st, p))))
 	}
 	return v
+}
+
+// ---- time.Time and timestamppb.Timestamp: the instant of a time.Time is tsecs/tnanos of the
+// value (uninterpreted functions of its representation); timestamppb.New stores exactly these
+// in the message, AsTime returns a time with exactly the stored instant (nil message: epoch).
+
+func (e *Env) timeFn(name string, t Value) string {
+	fl := e.flatten(t)
+	f := "|" + name + "!|"
+	if !e.declared[f] {
+		e.declared[f] = true
+		var ss []string
+		for range fl {
+			ss = append(ss, sInt)
+		}
+		e.sess.Cmd("(declare-fun " + f + " (" + strings.Join(ss, " ") + ") Int)")
+	}
+	return sx(f, fl...)
+}
+
+func structFieldIndex(t types.Type, name string) int {
+	st := t.Underlying().(*types.Struct)
+	for i := 0; i < st.NumFields(); i++ {
+		if st.Field(i).Name() == name {
+			return i
+		}
+	}
+	return -1
+}
+
+func extTimestampNew(e *Env, fr *Frame, fn *ssa.Function, args []Value, rt types.Type, st *State) Value {
+	e.trust("timestamppb.New / AsTime: the message holds exactly the instant (seconds, nanoseconds) of the time value")
+	pt := rt.(*types.Pointer).Elem()
+	v := e.zeroValue(pt).(*Struct)
+	secs := &Sc{T: e.timeFn("tsecs", args[0]), Sort: sInt, Typ: types.Typ[types.Int64]}
+	nanos := &Sc{T: e.timeFn("tnanos", args[0]), Sort: sInt, Typ: types.Typ[types.Int32]}
+	e.assume(mkAnd(sx("<=", "(- 9223372036854775808)", secs.T), sx("<=", secs.T, "9223372036854775807"), sx("<=", "0", nanos.T), sx("<", nanos.T, "1000000000")))
+	v.F[structFieldIndex(pt, "Seconds")] = secs
+	v.F[structFieldIndex(pt, "Nanos")] = nanos
+	return e.allocObj(st, pt, v)
+}
+
+func extTimestampAsTime(e *Env, fr *Frame, fn *ssa.Function, args []Value, rt types.Type, st *State) Value {
+	e.trust("timestamppb.New / AsTime: the message holds exactly the instant (seconds, nanoseconds) of the time value")
+	p := args[0].(*Ptr)
+	res := e.freshValue(rt, "time")
+	pt := p.Typ.(*types.Pointer).Elem()
+	secs, nanos := "0", "0"
+	isNil := mkEq(p.Ref, "0")
+	if cond := isNil; cond != tTrue {
+		// read the fields of a non-nil message (the heap cell of a nil pointer is never read: ite)
+		v := e.load(st, p).(*Struct)
+		secs = mkIte(isNil, "0", e.flatten(v.F[structFieldIndex(pt, "Seconds")])[0])
+		nanos = mkIte(isNil, "0", e.flatten(v.F[structFieldIndex(pt, "Nanos")])[0])
+	}
+	// (only for a normalised message: out-of-range nanoseconds are carried into the seconds)
+	e.assume(mkImp(mkAnd(sx("<=", "0", nanos), sx("<", nanos, "1000000000")), mkAnd(mkEq(e.timeFn("tsecs", res), secs), mkEq(e.timeFn("tnanos", res), nanos))))
+	return res
 }
